@@ -25,7 +25,7 @@ func file() *os.File {
 	if out != nil {
 		return out
 	}
-	path := os.Getenv("MOCKERY_VERIF_TRACE")
+	path := os.Getenv("VERIFHOOK_TRACE")
 	if path == "" {
 		return nil
 	}
@@ -37,7 +37,7 @@ func file() *os.File {
 	return out
 }
 
-// Emit appends one event to the trace file named by MOCKERY_VERIF_TRACE.
+// Emit appends one event to the trace file named by VERIFHOOK_TRACE.
 // kv is a flat list of alternating keys and values.
 func Emit(ev string, kv ...any) {
 	mu.Lock()
@@ -60,10 +60,10 @@ func Emit(ev string, kv ...any) {
 	_, _ = f.Write(append(b, '\n'))
 }
 
-// Fail returns an error when MOCKERY_VERIF_FAIL lists "point:key" (or
+// Fail returns an error when VERIFHOOK_FAIL lists "point:key" (or
 // "point:*"); entries are separated by commas.
 func Fail(point string, key string) error {
-	spec := os.Getenv("MOCKERY_VERIF_FAIL")
+	spec := os.Getenv("VERIFHOOK_FAIL")
 	if spec == "" {
 		return nil
 	}
